@@ -404,6 +404,37 @@ func init() {
 	props["C13"] = func(c *Ctx) {
 		c.Res.Rule = "packets (a) built through random Set/Add calls of shipped helpers and (b) parsed from their wire image, and (c) parsed from wire images whose attribute values are random bytes of the types the helpers address (wrong sizes, malformed Vendor-Specific payloads, tag bytes); on each: MarshalBinary, Encode, IsAuthenticRequest/Response, Parse, ParseAttributes, Attributes.Get/Lookup for every type present, all 14 typed decoders on the first attributes, debug.DumpString/DumpRequestString, and Get/Gets/Lookup/GetString/LookupString/GetStrings/String of every shipped helper whose attribute (or vendor) occurs in the packet plus three that do not. After every read a deep image (attribute bytes with their spare capacity, secret, authenticator, the buffer parsed from, the request buffer, MarshalBinary) must equal the image before; every byte slice handed back (except Attributes.Get/Lookup, which alias by design) is overwritten, spare capacity included, and the image compared again; the read is repeated and must print the same result; after Parse the source buffer is overwritten and the packet compared. non-trivial = distinct (operation, result) pairs"
 		r := c.Rng.Fork()
+		// the first reads of the process, each repeated at once: a result that depends on what was called before
+		// (state kept between calls) shows here, where nothing was called before
+		firstReads := func(when string) {
+			sec := []byte("c13-first")
+			for _, code := range []radius.Code{4, 40, 43, 1, 5} {
+				rq := &radius.Packet{Code: code, Identifier: 9, Secret: sec}
+				rq.Add(1, []byte("u"))
+				rw, err := rq.Encode()
+				if err != nil {
+					continue
+				}
+				rp := &radius.Packet{Code: 5, Identifier: 9, Secret: sec}
+				copy(rp.Authenticator[:], rw[4:20])
+				pw, _ := rp.Encode()
+				for _, rd := range []struct {
+					name string
+					f    func() string
+				}{
+					{"IsAuthenticRequest", func() string { return fmt.Sprint(radius.IsAuthenticRequest(rw, sec)) }},
+					{"IsAuthenticResponse", func() string { return fmt.Sprint(radius.IsAuthenticResponse(pw, rw, sec)) }},
+					{"Parse", func() string { p, err := radius.Parse(rw, sec); return fmt.Sprint(p != nil, err) }},
+				} {
+					a, b, d := rd.f(), rd.f(), rd.f()
+					if a != b || b != d {
+						c.Fail("spec", rd.name, "repeat", fmt.Sprintf("%s: code %d, %x (secret %q), three calls in a row", when, code, rw, sec), a+" / "+b+" / "+d, a, "repeating a read returns the same result")
+					}
+					c.Count("first-reads", when+rd.name+fmt.Sprint(code))
+				}
+			}
+		}
+		firstReads("first calls of the process")
 		n := c.N(150, 3000)
 		for k := 0; k < n; k++ {
 			sec := r.Bytes(1 + r.Intn(8))
@@ -495,6 +526,7 @@ func init() {
 				c.Fail("spec", "reads on a parsed packet", "read-writes", hx(keep), hx(buf), "unchanged", "the buffer a packet was parsed from changed")
 			}
 		}
+		firstReads("last calls of the run")
 		c.Flush()
 		if os.Getenv("VERIF_SYNTH_STAGE2") != "" {
 			return
@@ -502,6 +534,6 @@ func init() {
 		if c.Thorough() {
 			runSynthetic(c, r, 12, "C13")
 		}
-		c.RequireTags("read-built", "read-parsed", "read-hostile", "scribbled", "parse-buffer-overwritten", "mem-built", "mem-hostile")
+		c.RequireTags("first-reads", "read-built", "read-parsed", "read-hostile", "scribbled", "parse-buffer-overwritten", "mem-built", "mem-hostile")
 	}
 }
